@@ -402,6 +402,20 @@ class RecordList(list):
     return "RecordList(%s, group_by=%r, sort_by=%r)" % (
       list.__repr__(self), self._group_by, self._sort_by)
 
+  # Two RecordLists with the same rows but a different ordering rule are different values: find.*
+  # on them gives different answers. (Compared with a plain list, only the rows matter.)
+  def __eq__(self, other):
+    if isinstance(other, RecordList) and (
+        (self._group_by, self._sort_by) != (other._group_by, other._sort_by) or
+        self._sort_key is not other._sort_key):
+      return False
+    return list.__eq__(self, other)
+
+  def __ne__(self, other):
+    return not self == other
+
+  __hash__ = None
+
 
 # We don't currently have a good way to convert an incoming marshalled record to a proper Record
 # object for an appropriate table. We don't expect incoming marshalled records at all, but if such
